@@ -6,12 +6,19 @@
   counters and dirty flags (Model/EnvState.lean, Model/FullState.lean); every answer is a
   symbolic term naming the artefacts it was read from; the theorems say that after ANY
   finite history of API calls the answer equals the answer of a fresh object with the same
-  configuration.  Numeric content of the artefacts is C01/C03's subject.
+  configuration.  The symbolic answers have a proved numeric meaning (`env_answer_denotes`: the field of the
+  numeric envelope model `Ls.envSolve` on the current problem with the caller's configuration); that `envSolve`'s
+  fields are the least-squares solution / cofactors is C01/C03's subject.
+
+  Round 4: `EnvInput.Pos`, `World.Describes`, `Op.Valid` are bounded by the number of unknowns of the input the
+  object holds when the call is made (`HValid`), and are PROVED for the input the correspondence driver runs
+  (`env_driver_input_is_instance`), so every case of the `envstate` stream is an instance of the theorems below.
 -/
 import Gama.Lemmas.Cache
 import Gama.Lemmas.EnvState
 import Gama.Lemmas.EnvHist
 import Gama.Lemmas.EnvDenote
+import Gama.Lemmas.EnvStateFacts
 namespace Gama.Props.C04
 open Gama Gama.MTF Gama.C04
 
@@ -60,32 +67,32 @@ example : (MTF.init [0, 1, 2] : MTF Int Nat).WF ∧ 2 ≤ (MTF.init [0, 1, 2] : 
     current regularisation list would answer it: in particular every cached buffer that is read
     holds what a fresh computation would put there. -/
 theorem envelope_history_free (inp : EnvInput) (hp : inp.Pos) (m0 : Option (List Nat))
-    (ops : List Op) (hops : ∀ o ∈ ops, o.Valid) (op : Op) (hop : op.Valid) :
+    (ops : List Op) (hops : ∀ o ∈ ops, o.Valid inp.n) (op : Op) (hop : op.Valid inp.n) :
     (step inp (run inp (init m0) ops) op).2 = fresh inp (run inp (init m0) ops).minx op :=
   step_eq_fresh (run_inv hp (inv_init inp m0) hops) hp op hop
 
 /-- the invariant that makes it work holds in every reachable state -/
 theorem envelope_invariant (inp : EnvInput) (hp : inp.Pos) (m0 : Option (List Nat))
-    (ops : List Op) (hops : ∀ o ∈ ops, o.Valid) : Inv inp (run inp (init m0) ops) :=
+    (ops : List Op) (hops : ∀ o ∈ ops, o.Valid inp.n) : Inv inp (run inp (init m0) ops) :=
   run_inv hp (inv_init inp m0) hops
 
 /-- **One value per question.**  The answer is a function of the input and of the effective
     regularisation list alone (`spec`), whatever was asked before. -/
 theorem envelope_answer_is_spec (inp : EnvInput) (hp : inp.Pos) (m0 : Option (List Nat))
-    (ops : List Op) (hops : ∀ o ∈ ops, o.Valid) (op : Op) (hop : op.Valid) :
+    (ops : List Op) (hops : ∀ o ∈ ops, o.Valid inp.n) (op : Op) (hop : op.Valid inp.n) :
     (step inp (run inp (init m0) ops) op).2 = spec inp (eff inp (run inp (init m0) ops).minx) op :=
   (step_spec (run_inv hp (inv_init inp m0) hops) hp op hop).2
 
 /-- **Idempotence.**  Asking the same question again gives the same answer. -/
 theorem envelope_idempotent (inp : EnvInput) (hp : inp.Pos) (m0 : Option (List Nat))
-    (ops : List Op) (hops : ∀ o ∈ ops, o.Valid) (q : Op) (hq : q.Valid) (hquery : q.IsQuery) :
+    (ops : List Op) (hops : ∀ o ∈ ops, o.Valid inp.n) (q : Op) (hq : q.Valid inp.n) (hquery : q.IsQuery) :
     let s := run inp (init m0) ops
     (step inp (step inp s q).1 q).2 = (step inp s q).2 :=
   step_twice (run_inv hp (inv_init inp m0) hops) hp q hq hquery
 
 /-- **Reset with the same input.**  `reset` changes no answer. -/
 theorem envelope_reset_same_input (inp : EnvInput) (hp : inp.Pos) (m0 : Option (List Nat))
-    (ops : List Op) (hops : ∀ o ∈ ops, o.Valid) (q : Op) (hq : q.Valid) :
+    (ops : List Op) (hops : ∀ o ∈ ops, o.Valid inp.n) (q : Op) (hq : q.Valid inp.n) :
     let s := run inp (init m0) ops
     (step inp (step inp s .reset).1 q).2 = (step inp s q).2 :=
   step_after_reset (run_inv hp (inv_init inp m0) hops) (run_hinv inp hp m0 ops hops).2.2 hp q hq
@@ -98,8 +105,13 @@ example :
                             resolves := fun l => l ≠ [], qbbIn := fun i j => i == j }
     let ops := [Op.qxx 1 5, .q0xx 1 4, .qxx 2 3, .qxx 4 4, .minx [1, 2], .qxx 1 5, .unknowns,
                 .reset, .q0xx 5 1, .qbb 1 2, .minxAll]
-    (step inp (run inp (init none) ops) (.qxx 1 5)).2
-      = .qxxSing (.trow 0 1 [1, 2, 3, 4, 5]) (.trow 0 5 [1, 2, 3, 4, 5]) := by decide
+    inp.Pos ∧ (∀ o ∈ ops, o.Valid inp.n) ∧ (Op.qxx 1 5).Valid inp.n
+    ∧ (step inp (run inp (init none) ops) (.qxx 1 5)).2
+      = .qxxSing (.trow 0 1 [1, 2, 3, 4, 5]) (.trow 0 5 [1, 2, 3, 4, 5]) := by
+  refine ⟨fun i h1 hn => ?_, by decide, by decide, by decide⟩
+  show 1 ≤ 6 - i
+  have : i ≤ 5 := hn
+  omega
 
 /-! ### `AdjEnvelope` across resets to OTHER inputs (round 3)
 
@@ -117,10 +129,10 @@ survives `reset` is state of the model: the key table `indbuf`, the three vector
     erases the key table, `inv_reset`), and the list 1..n that `solve_x` builds for the default configuration
     is dropped by `reset` (repo 65eea33; `reset_md`, `eff_cfg`). -/
 theorem env_history_free_across_inputs (inp0 : EnvInput) (hp : inp0.Pos) (m0 : Option (List Nat))
-    (ops : List HOp) (hops : ∀ o ∈ ops, o.Valid) (op : Op) (hop : op.Valid) :
+    (ops : List HOp) (hops : HValid inp0 ops) (op : Op) :
     let h := hrun (hinit inp0 m0) ops
-    (hstep h (.q op)).2 = fresh h.inp (lastCfg m0 ops) op := by
-  intro h
+    op.Valid h.inp.n → (hstep h (.q op)).2 = fresh h.inp (lastCfg m0 ops) op := by
+  intro h hop
   have hi := hrun_inv (hinv_init hp m0) hops
   rw [hstep_eq_fresh_cfg hi op hop, hrun_cfg (hinv_init hp m0) hops]
   simp only [hinit, cfg_init]
@@ -128,44 +140,111 @@ theorem env_history_free_across_inputs (inp0 : EnvInput) (hp : inp0.Pos) (m0 : O
 
 /-- … and, equivalently, as an object configured with the list it currently stores -/
 theorem env_history_free_across_inputs_stored (inp0 : EnvInput) (hp : inp0.Pos) (m0 : Option (List Nat))
-    (ops : List HOp) (hops : ∀ o ∈ ops, o.Valid) (op : Op) (hop : op.Valid) :
+    (ops : List HOp) (hops : HValid inp0 ops) (op : Op) :
     let h := hrun (hinit inp0 m0) ops
-    (hstep h (.q op)).2 = fresh h.inp h.s.minx op :=
-  hstep_eq_fresh (hrun_inv (hinv_init hp m0) hops) op hop
+    op.Valid h.inp.n → (hstep h (.q op)).2 = fresh h.inp h.s.minx op :=
+  fun hop => hstep_eq_fresh (hrun_inv (hinv_init hp m0) hops) op hop
 
 /-- the invariant along such histories: the single-input invariant for the current input (every live
     key's vector was computed from the CURRENT data set; `tmpres` has the current dimension whenever
     `init_q_bb` is clear — its content is zeroed and refilled before every use), and a list marked
     `min_x_default` is the list of all parameters of the CURRENT system -/
 theorem env_invariant_across_inputs (inp0 : EnvInput) (hp : inp0.Pos) (m0 : Option (List Nat))
-    (ops : List HOp) (hops : ∀ o ∈ ops, o.Valid) :
+    (ops : List HOp) (hops : HValid inp0 ops) :
     let h := hrun (hinit inp0 m0) ops
     h.inp.Pos ∧ Inv h.inp h.s ∧ MD h.inp h.s :=
   hrun_inv (hinv_init hp m0) hops
 
 /-- the same-input theorem is the special case without `resetNew` -/
 theorem envelope_history_free_is_corollary (inp : EnvInput) (hp : inp.Pos) (m0 : Option (List Nat))
-    (ops : List Op) (hops : ∀ o ∈ ops, o.Valid) (op : Op) (hop : op.Valid) :
+    (ops : List Op) (hops : ∀ o ∈ ops, o.Valid inp.n) (op : Op) (hop : op.Valid inp.n) :
     (step inp (run inp (init m0) ops) op).2 = fresh inp (run inp (init m0) ops).minx op := by
-  have h := env_history_free_across_inputs_stored inp hp m0 (ops.map .q)
-    (by intro o ho; obtain ⟨o', ho', rfl⟩ := List.mem_map.mp ho; exact hops o' ho') op hop
-  simp only [hinit, hrun_q] at h
-  exact h
+  have h := env_history_free_across_inputs_stored inp hp m0 (ops.map .q) (hvalid_q inp ops hops) op
+  obtain ⟨e1, e2⟩ := hrun_q inp (init m0) 0 ops
+  have h' := h (by rw [hinit, e1]; exact hop)
+  rw [← e2]
+  simp only [hinit, e1] at h'
+  have e3 : (hstep (hrun { inp := inp, s := init m0 } (ops.map .q)) (.q op)).2
+      = (step (hrun { inp := inp, s := init m0 } (ops.map .q)).inp (hrun { inp := inp, s := init m0 } (ops.map .q)).s op).2 := rfl
+  rw [e3, e1] at h'
+  exact h'
 
-/-- **Numeric meaning (`answer_denotes`).**  For a numeric world `W` (problems by identity, the
-    ordering's inverse permutation) that describes the current input, the value DENOTED by the symbolic
-    answer after any history — evaluated by the numeric envelope model on the data set each provenance
-    term names — is the value the numeric model gives a fresh object on the CURRENT problem with the
-    current list.  So history freedom is a statement about numbers: a term naming another data set
-    would denote that other problem's number (see the witness below). -/
+/-- **Numeric meaning (`answer_denotes`; round 4: no free parameter).**  `W` is a numeric world (problems by
+    identity, inverse orderings) that describes the current input (`Describes`, bounded by `n`), and the symbolic
+    facts of the current input are the facts the numeric model reports for the problem it names (`Facts`: same
+    size, `nullity = defect of envSolve`, `resolves l ↔ solve_x of envSolve does not throw for l`).  Then the
+    value DENOTED by the symbolic answer after ANY history — every provenance term evaluated by `Ls.envSolve`
+    on the data set it names — is `answer p c op'`: the field of `envSolve` for that member function on the
+    CURRENT problem `p = W.prob id` with the configuration `c = lastCfg m0 ops` the CALLER left (`op'` = `op`
+    with the element order in which the code indexes the symmetric inverse outside the envelope,
+    `codeOrder`).  The right-hand side mentions neither the history, nor the object's state, nor a symbolic
+    fact, nor the stored list `m` the term is evaluated with: the value is determined by the problem alone. -/
 theorem env_answer_denotes {K : Type} [Scalar K] (W : World K) (inp0 : EnvInput) (hp : inp0.Pos)
-    (m0 : Option (List Nat)) (ops : List HOp) (hops : ∀ o ∈ ops, o.Valid) (op : Op) (hop : op.Valid)
-    (m : Option (List Nat)) :
+    (m0 : Option (List Nat)) (ops : List HOp) (hops : HValid inp0 ops) (op : Op) (m : Option (List Nat)) :
     let h := hrun (hinit inp0 m0) ops
-    W.Describes h.inp →
+    op.Valid h.inp.n → W.Describes h.inp → Facts (W.prob h.inp.id) h.inp →
+    denote W h.inp.id m (hstep h (.q op)).2
+      = answer (W.prob h.inp.id) (lastCfg m0 ops) (codeOrder h.inp op) := by
+  intro h hop hd hF
+  have hi := hrun_inv (hinv_init hp m0) hops
+  rw [hstep_answer W hi hd hF m op hop, hrun_cfg (hinv_init hp m0) hops]
+  simp only [hinit, cfg_init]
+  rfl
+
+/-- the former form (both sides through the symbolic facts of the input), kept as the intermediate statement -/
+theorem env_answer_denotes_symbolic {K : Type} [Scalar K] (W : World K) (inp0 : EnvInput) (hp : inp0.Pos)
+    (m0 : Option (List Nat)) (ops : List HOp) (hops : HValid inp0 ops) (op : Op) (m : Option (List Nat)) :
+    let h := hrun (hinit inp0 m0) ops
+    op.Valid h.inp.n → W.Describes h.inp →
     denote W h.inp.id m (hstep h (.q op)).2
       = directC h.inp (W.prob h.inp.id) m (eff h.inp h.s.minx) op :=
-  fun hd => hstep_denotes W (hrun_inv (hinv_init hp m0) hops) hd m op hop
+  fun hop hd => hstep_denotes W (hrun_inv (hinv_init hp m0) hops) hd m op hop
+
+/-- **The driver's input is an instance.**  `Driver/EnvState.lean` runs the machine on `f.toInputOf p d`
+    (`f` = the `envinfo` facts read from the implementation for data set `d`, `p` = the numeric problem `d` of the
+    case, `W = worldOf probs infos`) and accepts an `envinfo` line only if `f.agrees p` (ordering 1-based and
+    injective on `1..n`, size and defect those of `envSolve p`).  Then all three hypotheses of the theorems above
+    hold — so `env_history_free_across_inputs` and `env_answer_denotes` apply verbatim to every case of the
+    `envstate` stream. -/
+theorem env_driver_input_is_instance {K : Type} [Scalar K] (probs : Array (Ls.Problem K))
+    (infos : Array (Option Info)) (f : Info) (d : Nat) (hf : infos.getD (d - 1) none = some f) :
+    let W := worldOf probs infos
+    f.agrees (W.prob d) = true →
+    (f.toInputOf (W.prob d) d).Pos ∧ W.Describes (f.toInputOf (W.prob d) d)
+      ∧ Facts (W.prob (f.toInputOf (W.prob d) d).id) (f.toInputOf (W.prob d) d) :=
+  fun ha => ⟨Info.toInputOf_pos f (Info.agrees_wf ha) _ d, worldOf_describes probs infos f d hf (Info.agrees_wf ha) _,
+    Info.toInputOf_facts f _ d ha⟩
+
+/-- non-vacuity of `env_driver_input_is_instance` and `env_answer_denotes` on a two-problem `World Rat`: data set 1
+    is singular (x₁ − x₂ observed twice: defect 1), data set 2 regular; the orderings are the reversal / identity.
+    The `envinfo` facts agree with the numeric model (`decide +kernel` runs `envSolve` on the rationals), so the
+    inputs satisfy `Pos`, `Describes`, `Facts`; the history below is valid, and the denoted `q_xx(1,2)` after it is
+    the number `envSolve` gives for problem 2. -/
+example :
+    let p1 : Ls.Problem Rat := { m := 2, n := 2, rows := #[#[(1, 1), (2, -1)], #[(1, 1), (2, -1)]],
+                                 cov := #[⟨2, 0, #[1, 1]⟩], rhs := #[1, 3], reg := .none }
+    let p2 : Ls.Problem Rat := { m := 2, n := 2, rows := #[#[(1, 1), (2, -1)], #[(1, 1), (2, 1)]],
+                                 cov := #[⟨2, 0, #[1, 1]⟩], rhs := #[1, 3], reg := .none }
+    let f1 : Info := ⟨2, 1, #[2, 1], #[0, 1], #[[1, 2], [1, 2]]⟩
+    let f2 : Info := ⟨2, 0, #[1, 2], #[0, 1], #[[1, 2], [1, 2]]⟩
+    let probs := #[p1, p2]
+    let infos := #[some f1, some f2]
+    let W := worldOf probs infos
+    let a := f1.toInputOf (W.prob 1) 1
+    let b := f2.toInputOf (W.prob 2) 2
+    let ops := [HOp.q (.qxx 1 2), .q .unknowns, .resetNew b, .q (.q0xx 2 1)]
+    f1.agrees (W.prob 1) = true ∧ f2.agrees (W.prob 2) = true
+    ∧ HValid a ops ∧ (Op.qxx 1 2).Valid (hrun (hinit a none) ops).inp.n
+    ∧ denote W 2 none (hstep (hrun (hinit a none) ops) (.q (.qxx 1 2))).2
+        = answer p2 none (.qxx 1 2) := by
+  intro p1 p2 f1 f2 probs infos W a b ops
+  have h1 : f1.agrees (W.prob 1) = true := by decide +kernel
+  have h2 : f2.agrees (W.prob 2) = true := by decide +kernel
+  have ib := env_driver_input_is_instance probs infos f2 2 rfl h2
+  have ia := env_driver_input_is_instance probs infos f1 1 rfl h1
+  have hv : HValid a ops := ⟨by decide, trivial, ib.1, by decide, trivial⟩
+  refine ⟨h1, h2, hv, by decide, ?_⟩
+  exact env_answer_denotes W a ia.1 none ops hv (.qxx 1 2) none (by decide) ib.2.1 ib.2.2
 
 /-- non-vacuity: two singular inputs of the same size and one larger regular one; caches are filled
     under each; the final `q_xx` names only the current data set (3) -/
@@ -175,20 +254,22 @@ example :
     let b : EnvInput := { a with id := 2 }
     let c : EnvInput := { a with n := 6, nullity := 0, id := 3 }
     let ops := [HOp.q (.qxx 1 4), .q (.q0xx 1 3), .resetNew b, .q (.qxx 1 4), .q (.qbb 1 2), .resetNew c, .q (.qbb 2 1)]
-    (∀ o ∈ ops, o.Valid)
+    HValid a ops
     ∧ (hstep (hrun (hinit a none) ops) (.q (.qxx 1 4))).2 = .q0col (.invcol 3 4) 1
     ∧ (hstep (hrun (hinit a none) [.q (.qxx 1 4), .resetNew b]) (.q (.qxx 1 4))).2
         = .qxxSing (.trow 2 1 [1, 2, 3, 4]) (.trow 2 4 [1, 2, 3, 4]) := by
-  refine ⟨?_, by decide, by decide⟩
-  intro o ho
-  simp only [List.mem_cons, List.mem_nil_iff, or_false] at ho
-  rcases ho with rfl | rfl | rfl | rfl | rfl | rfl | rfl <;>
-    first | exact ⟨by decide, by decide⟩ | trivial | (intro i hi; exact hi)
+  refine ⟨⟨by decide, by decide, fun i hi _ => hi, by decide, by decide, fun i hi _ => hi, by decide, trivial⟩,
+    by decide, by decide⟩
 
-/-- **The erase step is needed (witness).**  The variant of `reset` that keeps key table and buffers
-    when the number of unknowns is unchanged (`resetKeep`; seeded change C03-seed2) answers `q_xx(1,4)`
-    after `reset(other data of the same size)` from the vectors of the OLD data set (identity 1) —
-    not what a fresh object given data set 2 computes; the code's `reset` does. -/
+/-- **The erase step is needed (witness; round 4: the seeded variant exactly).**  `resetKeep` is seeded/C03-seed2 as
+    written: key table and vectors are kept iff the `qxxbuf` vectors are ALREADY ALLOCATED with the new number of
+    unknowns (`HState.bufDim = new.n`; the dimension is state: `solve_x0` allocates on a singular system, `q0_xx`
+    when it first leaves the envelope).  After `q_xx(1,4)` on the singular data set 1 the vectors have dimension 4,
+    so after `reset(other data of the same size)` the variant answers `q_xx(1,4)` from the vectors of the OLD data
+    set (identity 1) — not what a fresh object given data set 2 computes; the code's `reset` does.  On a REGULAR
+    data set whose queries stayed inside the envelope nothing was allocated (`bufDim = 0`), the variant erases
+    like the code, and the histories agree (last conjunct) — the simplified round-3 variant ("same n ⇒ keep")
+    did not distinguish the two. -/
 example :
     let a : EnvInput := { n := 4, nullity := 1, invp := fun i => i, inEnv := fun i j => (max i j) - (min i j) ≤ 1,
                           resolves := fun l => l ≠ [], qbbIn := fun i j => i == j, id := 1 }
@@ -199,7 +280,13 @@ example :
     ∧ fresh b (hrunWith resetKeep (hinit a none) ops).s.minx (.qxx 1 4)
         = .qxxSing (.trow 2 1 [1, 2, 3, 4]) (.trow 2 4 [1, 2, 3, 4])
     ∧ (hstep (hrun (hinit a none) ops) (.q (.qxx 1 4))).2
-        = .qxxSing (.trow 2 1 [1, 2, 3, 4]) (.trow 2 4 [1, 2, 3, 4]) := by decide
+        = .qxxSing (.trow 2 1 [1, 2, 3, 4]) (.trow 2 4 [1, 2, 3, 4])
+    ∧ (hrunWith resetKeep (hinit a none) [.q (.qxx 1 4)]).bufDim = 4
+    ∧ (let r : EnvInput := { a with nullity := 0, id := 3 }
+       (hrunWith resetKeep (hinit r none) [.q (.q0xx 1 2)]).bufDim = 0
+       ∧ (hrunWith resetKeep (hinit r none) [.q (.q0xx 1 2), .resetNew b]).s.mtf.ents
+           = (hrun (hinit r none) [.q (.q0xx 1 2), .resetNew b]).s.mtf.ents
+       ∧ (hrunWith resetKeep (hinit r none) [.q (.q0xx 1 4)]).bufDim = 4) := by decide
 
 /-- **Regression of finding C04-env-allist-survives-reset (fixed in repo 65eea33).**  The configuration
     "all parameters" (`min_x_list == nullptr`) is replaced inside `solve_x()` by an explicit list 1..n of the
@@ -223,7 +310,7 @@ example :
     let a : EnvInput := { n := 3, nullity := 1, invp := fun i => i, inEnv := fun _ _ => true,
                           resolves := fun l => l ≠ [], qbbIn := fun _ _ => true, id := 1 }
     let b : EnvInput := { a with n := 5, id := 2 }
-    let keepList : EnvInput → EnvInput → EnvState → EnvState := fun _ _ s => { reset s with minx := s.minx, minxDef := s.minxDef }
+    let keepList : HState → EnvInput → EnvState × Nat := fun h _ => ({ reset h.s with minx := h.s.minx, minxDef := h.s.minxDef }, 0)
     (hstepWith keepList (hrunWith keepList (hinit a none) [.q .unknowns, .resetNew b]) (.q .unknowns)).2
       = .x (some [1, 2, 3]) := by decide
 
